@@ -6,6 +6,7 @@ import CimbaModel.Sim.Basic
 import CimbaModel.HashHeap.Orders
 import CimbaModel.Sim.S3Grant
 import CimbaModel.Sim.S3Signals
+import CimbaModel.Sim.S3All
 
 namespace CimbaModel.Props.C08
 open CimbaModel CimbaModel.Sim CimbaModel.Event CimbaModel.Generated CimbaModel.HashHeap.SpecOrders
@@ -206,5 +207,32 @@ example : GrantInv {} ∧ dispatch {} = none := by
 example : ∃ (w : World) (p : Pid), EvInv w.ev ∧ ∃ e ∈ w.ev.pending, kindMatch p aRes (some sigSuccess) e = true := by
   refine ⟨pushEv {} aRes 1 sigSuccess 0 0, 0, ?_, _, List.mem_cons_self, by decide⟩
   exact pushEv_evinv (w := {}) _ _ _ _ _ (by decide) (Event.init_inv 0)
+
+
+/-! ### in every reachable state
+
+`AllInv` (Props/C04, Sim/S3All) is an invariant of `dispatch` whose clauses include `AllGWF` and the ownership of
+grants; so the hypotheses of the signal theorems hold at every signal of every run, and a grant is never lost or
+duplicated: -/
+
+theorem guards_wellformed_reachable {w0 w : World} (hr : Reach w0 w) (h0 : AllInv w0) : AllGWF w := (h0.reach hr).g.gw
+
+theorem signal_footprint_reachable {w0 w : World} (hr : Reach w0 w) (h0 : AllInv w0) (fuel : Nat) (g : Nat) :
+    SigRel w (guardSignal fuel w g) := signal_footprint fuel w g (guards_wellformed_reachable hr h0)
+
+/-- a pending grant always has an owner that will consume it or pass it on: its process is suspended in a wait on the
+    guard, still awaits it, is off the waiting list, and no second grant is pending for it -/
+theorem grant_has_owner {w0 w : World} (hr : Reach w0 w) (h0 : AllInv w0) {e : HTag} (he : e ∈ w.ev.pending)
+    (ha : e.item.a = aRes) (hc : e.item.c = 0) :
+    ∃ p g f, e.item.b = p + 1 ∧ (w.proc p).blocked = some f ∧ FrameOn w f g ∧ guardAw w p = [.guard g] ∧
+      ¬ queued w g (p + 1) ∧ (∀ g', ¬ queued w g' (p + 1)) ∧
+      ∀ e' ∈ w.ev.pending, isGrant e' → e'.item.b = p + 1 → e' = e :=
+  (h0.reach hr).g.grant_owned he (Or.inl ⟨ha, hc⟩)
+
+/-- whoever is in a waiting list is a suspended process that awaits exactly that guard (so a signal never wakes a
+    process that is not waiting) -/
+theorem waiter_registered {w0 w : World} (hr : Reach w0 w) (h0 : AllInv w0) {g k : Nat} (hq : queued w g k) :
+    ∃ p f, k = p + 1 ∧ p < w.procs.size ∧ Await.guard g ∈ (w.proc p).awaits ∧ guardAw w p = [.guard g] ∧
+      (w.proc p).blocked = some f ∧ FrameOn w f g := (h0.reach hr).g.queued_means hq
 
 end CimbaModel.Props.C08
